@@ -463,7 +463,7 @@ fn check_extract(ctx: &mut Ctx, e: &Envelope, t: &T) {
 }
 
 pub fn run(ctx: &mut Ctx) {
-    let total = ctx.n(80_000, 2_000_000);
+    let total = ctx.n(80_000, 4_000_000);
     for case in ctx.cases(total) {
         ctx.begin_case(case);
         let mut rng = ctx.rng(case);
